@@ -29,6 +29,17 @@ def make_threading(kernel, faults=None, stats=None):
         counter[0] += 1
         return f'{prefix}{counter[0]}'
 
+    def _maybe_interrupt():
+        # an asynchronous KeyboardInterrupt delivered to a thread that is about to block in
+        # Condition.wait() (and, in simos, in lockf): both are only reached on the forward
+        # acquisition path.  Plain lock acquisitions are NOT interrupted: lock.py also takes
+        # them in its cleanup (finally) code, where an asynchronous exception can leave any
+        # Python program inconsistent - that is not a property of lock.py.
+        if faults is not None and getattr(faults, 'interrupt', None) is not None and faults.interrupt(k):
+            stats['fault.interrupt'] = stats.get('fault.interrupt', 0) + 1
+            k.log('fault', 'interrupt')
+            raise KeyboardInterrupt()
+
     class SimLock:
         def __init__(self):
             self.owner = None
@@ -164,6 +175,13 @@ def make_threading(kernel, faults=None, stats=None):
                     self.waiters.remove(w)
                 stats['fault.spurious_wakeup'] = stats.get('fault.spurious_wakeup', 0) + 1
             try:
+                if not w.notified:
+                    try:
+                        _maybe_interrupt()
+                    except BaseException:
+                        if w in self.waiters:
+                            self.waiters.remove(w)
+                        raise
                 k.park('cond', self, lambda: w.notified)
             finally:
                 if not k.inert():
